@@ -180,7 +180,7 @@ Record linv (ds : list dep) (mk : bool) (code : Z) (ad : option jstate) (r : jst
   l_EN : st r = ERROR -> pc r = PWokenReady \/ past_loop (pc r) = true \/ is_adopt (pc r) = true;
   l_un : started (pc r) = false -> launches r = 0%nat /\ held r = [] /\ st r = UNSCHEDULED /\ fdep r = false /\ cur r = [] /\ uns r = 0;
   l_F : (exists i, nth_error (cur r) i = Some DFAIL) -> finished (st r) = true \/ is_adopt (pc r) = true;
-  l_held : held r <> [] -> pc r = PWoken ALockIn \/ pc r = PExt ALockOutAbort \/ pc r = PWoken ALockOutAbort \/ in_run (pc r) = true;
+  l_held : held r <> [] -> pc r = PExt ALockOutAbort \/ pc r = PWoken ALockOutAbort \/ in_run (pc r) = true;
   l_WR : pc r = PWokenReady -> ev r = true;
   l_RS : st r = READY -> started (pc r) = true;
   l_WS : pc r = PWokenReady -> st r = READY \/ st r = ERROR;
@@ -256,7 +256,7 @@ Proof.
   - intros X. assert (AP : is_adopt (pc r) = true -> is_adopt (pc r') = true).
     { intros F. destruct PC as [E|(E&_)]; [congruence|]. rewrite E in F; discriminate. }
     destruct (Hf X) as [Y|[Y|Y]]; auto. destruct (l_F L Y) as [F|F]; [left; rewrite (FIN F); exact F|right; auto].
-  - rewrite Ah. intros H. destruct (l_held L H) as [P|[P|[P|P]]]; destruct PC as [E|(E&_)]; rewrite ?E in *; try discriminate; tauto.
+  - rewrite Ah. intros H. destruct (l_held L H) as [P|[P|P]]; destruct PC as [E|(E&_)]; rewrite ?E in *; try discriminate; tauto.
   - intros P. destruct Ap as [E|(_&_&_&E)]; auto.
     rewrite E in P. apply Ae. apply (l_WR L P).
   - intros R. destruct PC as [E|(_&E&_)]; rewrite E; auto.
@@ -660,7 +660,7 @@ Proof.
     destruct (l_L2 L E) as (_ & [X|(X&_)]); rewrite P in X; discriminate. }
   assert (H : held r = []).
   { destruct (held r) eqn:E; auto. assert (X : held r <> []) by congruence.
-    destruct (l_held L X) as [Y|[Y|[Y|Y]]]; rewrite P in Y; discriminate. }
+    destruct (l_held L X) as [Y|[Y|Y]]; rewrite P in Y; discriminate. }
   assert (M : lmid ds mk code (Some v) (w_st r v)).
   { pose proof (l_CI L S). pose proof (l_L1 L).
     constructor; simpl; auto; try congruence; try lia; try discriminate.
@@ -676,7 +676,7 @@ Proof.
   constructor; simpl; auto; try discriminate; rewrite P in *; simpl in *;
     try (destruct a; simpl in *; auto; fail).
   - intros X. destruct (EN X) as [Y|Y]; [discriminate|]. right. destruct a; auto.
-  - intros X. destruct (H X) as [Y|[Y|[Y|Y]]]; try discriminate; destruct a; simpl in *; try discriminate; auto.
+  - intros X. destruct (H X) as [Y|[Y|Y]]; try discriminate; destruct a; simpl in *; try discriminate; auto.
 Qed.
 
 Ltac pcc := intros; try (intuition (try discriminate; try congruence; auto); fail).
@@ -737,16 +737,18 @@ Proof.
   constructor; simpl; rewrite P in *; simpl in *; rewrite ?L0; pcc.
 Qed.
 
-Lemma linv_held : forall ds mk code ad r hd, linv ds mk code ad r -> pc r = PWoken ALockIn -> linv ds mk code ad (w_held r hd).
+Lemma held_nil_of_pc : forall ds mk code ad r, linv ds mk code ad r ->
+  pc r <> PExt ALockOutAbort -> pc r <> PWoken ALockOutAbort -> in_run (pc r) = false -> held r = [].
 Proof.
-  intros ds mk code ad r hd [A D EV CI L1 RUN L2 L0' MK' E EN UN F H WR RS WS RT AD ADPC ADST LRUN] P.
-  constructor; simpl; rewrite P in *; simpl in *; pcc.
+  intros ds mk code ad r L N1 N2 N3. destruct (held r) eqn:E; auto. exfalso.
+  assert (X : held r <> []) by congruence. destruct (l_held L X) as [Y|[Y|Y]]; congruence.
 Qed.
 
-Lemma linv_toabort : forall ds mk code ad r, linv ds mk code ad r -> pc r = PWoken ALockIn ->
-  linv ds mk code ad (w_pc r (PExt ALockOutAbort)).
+(* the aborted start: the locks taken so far are kept until the job lock has been released *)
+Lemma linv_abortheld : forall ds mk code ad r hd, linv ds mk code ad r -> pc r = PWoken ALockIn ->
+  linv ds mk code ad (w_pc (w_held r hd) (PExt ALockOutAbort)).
 Proof.
-  intros ds mk code ad r L P. destruct (lockin_facts L P) as (L0 & MK & NE & ND & NF & ADN).
+  intros ds mk code ad r hd L P. destruct (lockin_facts L P) as (L0 & MK & NE & ND & NF & ADN).
   destruct L as [A D EV CI L1 RUN L2 L0' MK' E EN UN F H WR RS WS RT AD ADPC ADST LRUN].
   constructor; simpl; rewrite P in *; simpl in *; rewrite ?L0; pcc.
 Qed.
